@@ -387,6 +387,7 @@ func init() {
 			if !s.OK() {
 				return
 			}
+			c.FirstSlashOnly("C09") // a name with a second slash is the same account in a batch as on its own
 			c.RefusalReasons("C09")
 			c.EntryAlignment("C09", s, "att")
 			c.RulerFastPath("C09")
